@@ -1,3 +1,3 @@
-pub mod alphabet;
-pub mod rc5grid;
+pub use vcore::{alphabet, report};
+pub mod props;
 pub mod subjects;
